@@ -173,14 +173,23 @@ def main():
                 else:
                     o["text"] = " ; ".join(subs + ["out = " + main_])
         evs = [ev_parse(), ev_evaluate(range(N), w), {"o": 1, "a": "explain"}]
-        if rng.random() < 0.25:
+        o0_ = o
+        if rng.random() < (0.6 if "written" in o else 0.25):
             # the same object evaluates and explains a second (and third) trace: nothing of the earlier report may survive
             for _ in range(rng.choice([1, 2])):
+                if "written" in o and rng.random() < 0.7:
+                    # ... after the sampling period was halved: the bounds now span twice as many samples (seed C20-g)
+                    E_ = _c08.E
+                    half = o["units"]["pnum"] * 10 ** E_[o["units"]["punit"]] // 2
+                    hu = [u for u in ("s", "ms", "us", "ns") if half % 10 ** E_[u] == 0 and half // 10 ** E_[u] <= 100000][0]
+                    un_ = {"def": o["units"]["def"], "pnum": half // 10 ** E_[hu], "pden": 1, "punit": hu}
+                    evs.append({"o": 1, "a": "config", "set_period": [un_["pnum"], hu, 0.1], "units": un_})
+                    o = dict(o, units=un_)         # (a further halving starts from here; the recorded object keeps the first)
                 w2 = {v: [thr[v] + rng.choice([-1, 0, 1]) * rng.choice([1, 1, 2]) for _ in range(N)] for v in vs_used}
                 if rng.random() < 0.5:
                     w2 = {v: [thr[v] + rng.choice([1, -1])] * N for v in vs_used}     # uniformly on one side: often satisfied
                 evs += [ev_evaluate(range(N), w2), {"o": 1, "a": "explain"}]
-        cases.append(case([o], evs, skip=["evaluate.viol"]))
+        cases.append(case([o0_], evs, skip=["evaluate.viol"]))
     traces = runner.run_cases(cases)
     vs_, gen, dist = core.validate("C20", traces, batch=60)
     rep.add_traces(traces, vs_, gen, dist, nontrivial_key=lambda c: c["objs"][0]["text"] + str(c["events"][1]["w"]))
